@@ -14,10 +14,11 @@ func main() {
 		"List/OrderedMap operation on any earlier value), every result compared with the immutable-sequence / insertion-ordered-map " +
 		"reference and all query methods with the element walk; non-trivial = merges into / deletes from / looks up in a non-empty " +
 		"hash, or changes a non-empty array, or parses a literal with more than one entry. " +
-		"StringHash: all histories of length<=L over a 12-operation mutating alphabet on 4 keys (bounded-exhaustive, " +
+		"StringHash: all histories of length<=L over a 14-operation mutating alphabet on 4 keys (bounded-exhaustive, " +
 		"full observation after every step) + seeded random multi-object histories; a history is non-trivial when it " +
 		"contains a Delete of a present key that is not the last entry, or a mutation of a frozen hash, or a Merge/PutAll " +
-		"with a non-empty operand; distinct = distinct operation sequences"
+		"with a non-empty operand, or a ComputeIfAbsent whose mapping function panics or re-enters the hash; " +
+		"distinct = distinct operation sequences"
 	rng := lib.NewRng(cfg.Seed)
 	if cfg.Replay != "" {
 		replay(cfg, res)
@@ -61,7 +62,7 @@ func replay(cfg *lib.Config, res *lib.Result) {
 			fmt.Printf("FAILS at step %d: %s returned %s, the insertion-ordered map returns %s\n", bad, x.Ops[bad], c.outs[bad], want)
 			res.Violate(lib.Violation{Clause: "stringhash-abstract-map",
 				What:  fmt.Sprintf("step %d %s returned %s, the insertion-ordered map returns %s", bad, x.Ops[bad], c.outs[bad], want),
-				Input: map[string]interface{}{"kind": "stringhash", "ops": x.Ops[:bad+1]}})
+				Input: map[string]interface{}{"kind": "stringhash", "ops": x.Ops[:bad+1]}, Tags: shTags(x.Ops, bad)})
 		} else {
 			fmt.Println("implementation agrees with the abstract map on this history")
 		}
@@ -78,8 +79,8 @@ func shNontrivial(c shCase) bool {
 			if len(c.outs[i]) > 10 && c.outs[i][:9] == "RVal (Som" {
 				return true
 			}
-		case "Put", "Compute", "PutAll":
-			if c.outs[i] == "RFrozen" {
+		case "Put", "Compute", "PutAll", "ComputePanic", "ComputePut":
+			if c.outs[i] == "RFrozen" || c.outs[i] == "RPanic" || o.Kind == "ComputePut" {
 				return true
 			}
 		case "Merge":
@@ -126,7 +127,7 @@ func runStringHash(cfg *lib.Config, res *lib.Result, rng *lib.Rng) {
 		if bad >= 0 {
 			res.Violate(lib.Violation{Clause: "stringhash-abstract-map",
 				What: fmt.Sprintf("step %d %s returned %s, the insertion-ordered map returns %s", bad, ops[bad], c.outs[bad], want),
-				Input: map[string]interface{}{"kind": "stringhash", "ops": ops[:bad+1]}})
+				Input: map[string]interface{}{"kind": "stringhash", "ops": ops[:bad+1]}, Tags: shTags(ops, bad)})
 		}
 		if toCoq || (bad >= 0 && len(res.Violations) <= 20) {
 			cf.Add(c.gallina(), map[string]interface{}{"kind": "stringhash", "ops": ops})
@@ -134,6 +135,9 @@ func runStringHash(cfg *lib.Config, res *lib.Result, rng *lib.Rng) {
 		if total%977 == 1 {
 			res.Sample(map[string]interface{}{"kind": "stringhash", "ops": opsText(ops), "outs": c.outs})
 		}
+	}
+	for _, ops := range shCorpus() {
+		check(ops, true, "corpus")
 	}
 	idx := 0
 	var rec func(seq []shOp, l int)
